@@ -600,8 +600,10 @@ func (device *AbacoUDPReceiver) start() (err error) {
 				} else if err == io.EOF {
 					return
 				} else {
+					// A UDP port receives whatever is sent to it. Drop a datagram that is not a valid packet and keep
+					// receiving: returning here would leave the socket open and ReadAllPackets blocked forever.
 					fmt.Printf("Error converting UDP to packet: err %v, packet %v\n", err, pack)
-					return
+					continue
 				}
 			}
 		}
